@@ -12,3 +12,4 @@ for c in "$@"; do
 done
 git -C /repo reset -q; git -C /repo checkout -- .
 git -C /repo status --short | head -3
+/verif/check build   # never leave a harness binary that was built against a changed /repo
